@@ -316,6 +316,10 @@ func HandleSetFileInfo(cc *hotline.ClientConn, t *hotline.Transaction) (res []ho
 			if _, err := os.Lstat(target); err == nil && target != fullFilePath {
 				return cc.NewErrReply(t, "Cannot rename "+string(fileName)+" because an item with that name already exists.")
 			}
+			// The file list shows a partial upload under its final name: that name is taken too.
+			if _, err := os.Lstat(target + hotline.IncompleteFileSuffix); err == nil && target != fullFilePath {
+				return cc.NewErrReply(t, "Cannot rename "+string(fileName)+" because an item with that name already exists.")
+			}
 		}
 	}
 
@@ -534,6 +538,12 @@ func HandleNewFolder(cc *hotline.ClientConn, t *hotline.Transaction) (res []hotl
 	// TODO: check path and folder Name lengths
 
 	if _, err := cc.Server.FS.Stat(newFolderPath); !os.IsNotExist(err) {
+		msg := fmt.Sprintf("Cannot create folder \"%s\" because there is already a file or folder with that Name.", folderName)
+		return cc.NewErrReply(t, msg)
+	}
+
+	// The file list shows a partial upload under its final name: that name is taken too.
+	if _, err := os.Lstat(newFolderPath + hotline.IncompleteFileSuffix); err == nil {
 		msg := fmt.Sprintf("Cannot create folder \"%s\" because there is already a file or folder with that Name.", folderName)
 		return cc.NewErrReply(t, msg)
 	}
